@@ -428,7 +428,13 @@ impl Typer {
 
         let expr_tast = self.coerce_to_expected_dyn(genv, diagnostics, e, expr_tast, expected);
         self.push_constraint(Constraint::TypeEqual(expr_tast.get_ty(), expected.clone()));
-        self.record_expr_result(e, &expr_tast);
+        // A coercion is recorded on its own and re-applied when the typed tree is built; the
+        // expression itself keeps its own type (a constructor coerced to `dyn Tr` is still a
+        // constructor of its struct or enum).
+        match &expr_tast {
+            tast::Expr::EToDyn { expr: inner, .. } => self.record_expr_result(e, inner),
+            _ => self.record_expr_result(e, &expr_tast),
+        }
         expr_tast
     }
 
